@@ -2628,6 +2628,19 @@ def zip64_scenarios(tier, rnd):
         s = writer_sc("two-big", ops, select=[1, 2, 3])
         s["read"] = [{"i": 2, "head": 1, "tail": 1, "expect": {"len": _big(s2), "head": head.hex(), "tail": tail.hex()}}]
         s["expect"]["sizes"] = [{"i": 1, "usize": _big(s1), "crc": zc.crc(s1, head, tail)}, {"i": 2, "usize": _big(s2), "crc": zc.crc(s2, head, tail)}]
+        if tier == "thorough":      # (quick: exact-after-big-0 below has the same shape - all three values of the second entry in its ZIP64 record)
+            scs.append(s)
+    # a value EXACTLY at 0xFFFFFFFF next to a value that needs ZIP64: the 32-bit field then equals the sentinel, so the value must
+    # travel in the ZIP64 record too or every reader takes the record's first value for it (D17: size 2^32-1 at a header offset > 4 GiB)
+    for k, (large2, s2) in enumerate([(True, T - 1)] if tier == "quick" else [(True, T - 1), (False, T - 1), (True, T - 2)]):
+        head, tail = b"\x55", b"\x66"
+        s1 = T + 1
+        ops = [{"op": "start", "name": "big1", "large": True, "method": 0}, {"op": "zeros", "n": s1, "head": head.hex(), "tail": tail.hex()},
+               {"op": "start", "name": "exact", "large": large2, "method": 0}, {"op": "zeros", "n": s2, "head": head.hex(), "tail": tail.hex()},
+               {"op": "start", "name": "small", "large": False, "method": 8}, {"op": "data", "data": "tail entry"}, {"op": "finish"}]
+        s = writer_sc("exact-after-big-%d" % k, ops, select=[1, 2, 3])
+        s["read"] = [{"i": 2, "head": 1, "tail": 1, "expect": {"len": _big(s2), "head": head.hex(), "tail": tail.hex()}}]
+        s["expect"]["sizes"] = [{"i": 1, "usize": _big(s1), "crc": zc.crc(s1, head, tail)}, {"i": 2, "usize": _big(s2), "crc": zc.crc(s2, head, tail)}]
         scs.append(s)
     # raw copy of a source entry whose uncompressed size needs ZIP64 while its compressed size does not (and the other way round is
     # impossible): the copy's local header must carry the ZIP64 record; neighbours written normally before and after
@@ -2668,12 +2681,19 @@ def c08(tier):
     rep.add_mc(r, "MC_Zip64.cfg")
     if r["error"]:
         rep.spec_violation(r, "MC_Zip64.cfg")
-    for bug in ("need_ge", "count_ge"):
+    for bug in ("need_ge", "count_ge", "central_gt"):
         r = vlib.tlc_mc("MC_Zip64.tla", "MC_Zip64_%s.cfg" % bug, wd, timeout=300, tag="mc-" + bug)
         found = bool(r["error"]) and "Rules" in r["error"]
         rep.neg_controls.append({"spec_mutant": bug, "expected_violation": "Rules", "found": found})
         if not found:
             raise ToolTrouble("spec mutant %s not detected" % bug)
+    # D17 at model level: with the central ZIP64 record carrying only values ABOVE the sentinel (the defect), a size exactly at the
+    # limit next to an offset beyond it makes the required layout undecodable (ZipFormat!ParseZ64) - TLC must find that
+    r = vlib.tlc_mc("MC_Writer.tla", "MC_Writer_central_gt.cfg", wd, timeout=300, tag="mc-central-gt")
+    found = bool(r["error"]) and "LayoutWellFormed" in r["error"]
+    rep.neg_controls.append({"spec_mutant": "central_gt (NeedZ64C <- NeedZ64 in MC_Writer)", "expected_violation": "LayoutWellFormed", "found": found})
+    if not found:
+        raise ToolTrouble("spec mutant central_gt not detected by MC_Writer")
     # the two-limb arithmetic itself, for unbounded naturals at the real base 2^24 (Apalache/SMT): Init => Laws
     if tier == "thorough":
         ok, tail = apalache("BigProof.tla", ["--init=AnyInit", "--inv=Laws", "--length=0"], wd, "bigproof")
